@@ -10,6 +10,7 @@
    Numbers in: integers, p/q (decimal) or m@e (= m * 2^e).  Numbers out: [-]hex/hex (exact rationals). *)
 open C10_model
 
+
 let rec nat_of_int n = if n <= 0 then O else S (nat_of_int (n - 1))
 let rec int_of_nat = function O -> 0 | S n -> 1 + int_of_nat n
 let rec pos_of_int n = if n = 1 then XH else if n land 1 = 0 then XO (pos_of_int (n / 2)) else XI (pos_of_int (n / 2))
@@ -103,8 +104,53 @@ let line_search toks =
        Printf.sprintf "pt=%s val=%s der=%s flags=%s" (v_str p') (q_str v') (v_str g') (String.concat "," !flags))
   | _ -> "?"
 
+(* ---- L-BFGS ---- *)
+let lb_str (m : lb_model) =
+  Printf.sprintf " nh=%d bdiag=%s hk=%d hs=%s hy=%s" (int_of_nat m.lb_hist) (q_str m.lb_bdiag) (List.length m.lb_pairs)
+    (String.concat "," (List.map (fun (s, _) -> v_str s) m.lb_pairs)) (String.concat "," (List.map (fun (_, y) -> v_str y) m.lb_pairs))
+
+(* B <n> <nh> <box> | bdiag thres | hs (k*n) | hy (k*n) | y | s | g | l | u | x
+   ONE call of the model's updateHist + direction rule on the implementation's own previous state (tools/c10.py builds
+   the line from two consecutive state lines of the harness) *)
+let lbfgs_replay toks =
+  match split_groups toks with
+  | [[ns; nh; box]; [bd; th]; hs; hy; yl; sl; gl; ll; ul; xl] ->
+    let n = int_of_string ns in
+    let v = List.map parse_num in
+    let pairs = List.combine (chunk n (v hs)) (chunk n (v hy)) in
+    let m = { lb_hist = nat_of_int (int_of_string nh); lb_bdiag = parse_num bd; lb_thres = parse_num th; lb_pairs = pairs } in
+    let y = v yl and s = v sl and g = v gl in
+    let m' = lb_update_hist m y s in
+    let d = if box = "1" then lb_box_dir m'.lb_bdiag m'.lb_pairs (v ll) (v ul) (v xl) g
+            else lb_mult_binv m'.lb_bdiag m'.lb_pairs (List.map qopp g) in
+    (* which branch of getBoxConstrainedDirection (coverage only) *)
+    let branch =
+      if box <> "1" then "free" else begin
+        let l = v ll and u = v ul and x = v xl in
+        let mk = lb_mask l u x (List.map qopp g) in
+        let p0 = vmask mk (List.map qopp g) in
+        let step = vmask mk (lb_mult_binv m'.lb_bdiag m'.lb_pairs p0) in
+        let inact = List.length (List.filter not mk) in
+        if lb_step_ok mk l u x step then Printf.sprintf "full%s" (if inact > 0 then "+fixed" else "")
+        else begin
+          let cauchy = vdiv p0 (dot p0 (lb_mult_b m'.lb_bdiag m'.lb_pairs p0)) in
+          let alpha = lb_ratio mk l u x cauchy { qnum = Zpos XH; qden = XH } in
+          if qle_bool { qnum = Zpos XH; qden = XH } alpha then "dogleg" else if (qred alpha).qnum = Z0 then "cauchy0" else "cauchy"
+        end
+      end in
+    Printf.sprintf "ys=%s%s dir=%s branch=%s stored=%d" (q_str (dot y s)) (lb_str m') (v_str d) branch
+      (if qle_bool (dot y s) m.lb_thres then 0 else 1)
+  | _ -> "?"
+
+(* the exact rationals of an L-BFGS history square in size with every stored pair: the model stops following a history
+   (prints "-") once the entries of its point and of its direction need more than [max_bits] bits (environment C10_MAX_BITS) *)
+let max_bits = try int_of_string (Sys.getenv "C10_MAX_BITS") with _ -> 200
+let q_bits x = let x = qred x in (match x.qnum with Z0 -> 0 | Zpos p | Zneg p -> List.length (pos_bits p)) + List.length (pos_bits x.qden)
+let v_bits v = List.fold_left (fun a x -> max a (q_bits x)) 0 v
+
 type st =
   | NoModel
+  | LsLbfgs of lb_model ls_state * (vec * vec) option
   | LsBfgs of vec list ls_state
   | LsSd of unit ls_state
   | LsCg of nat ls_state
@@ -124,6 +170,7 @@ let show = function
   | NoModel -> "-"
   | LsBfgs s -> ls_str true None s ^ " hess=" ^ v_str (List.concat s.extra)
   | LsSd s -> ls_str true None s
+  | LsLbfgs (s, _) -> ls_str true None s ^ lb_str s.extra
   | LsCg s -> ls_str true (Some (int_of_nat s.extra)) s
   | LsFirst (s, k) -> if k <= 1 then ls_str false None s else "-"
   | Sd s -> Printf.sprintf "pt=%s val=%s" (v_str s.sd_pt) (q_str s.sd_val)
@@ -142,6 +189,7 @@ let () =
       try
         (match toks with
          | "L" :: rest -> line_search rest
+         | "B" :: rest -> lbfgs_replay rest
          | "I" :: rest ->
            (match split_groups rest with
             | [[opt; ls; kind; ns]; al; bl; xl; pl; ll; ul] ->
@@ -156,6 +204,10 @@ let () =
                  | "SDLS" when ls = "2" || box -> state := LsSd (ls_init_o !f !g feas sd_init_model box lsn x0)
                  | "CG" when ls = "2" -> state := LsCg (ls_init_o !f !g feas cg_init_model box lsn x0)
                  | "BFGS" when ls = "2" -> state := LsBfgs (ls_init_o !f !g feas bfgs_init_model box lsn x0)
+                 | "LBFGS" when ls = "2" || box ->
+                   let nh = (match pl with [h] -> int_of_string h | _ -> 100) in
+                   state := LsLbfgs (ls_init_o !f !g feas (lb_init_model (nat_of_int nh)) box lsn x0,
+                                     if box then Some (List.map parse_num ll, List.map parse_num ul) else None)
                  | ("BFGS" | "LBFGS") when ls = "2" || box -> state := LsFirst (ls_init_o !f !g feas sd_init_model box lsn x0, 0)
                  | "SD" -> (match pl with
                      | [lr; mom] -> state := Sd (sd_init !f !g (parse_num lr) (parse_num mom) x0)
@@ -169,6 +221,10 @@ let () =
             | NoModel -> ()
             | LsBfgs s -> (match ls_step_o !f !g bfgs_dir dummy_oracle s with Some s' -> state := LsBfgs s' | None -> state := NoModel)
             | LsSd s -> state := LsSd (ls_step !f !g sd_dir s)
+            | LsLbfgs (s, bx) ->
+              let dir = (match bx with Some (l, u) -> lbfgs_dir_box l u | None -> lbfgs_dir) in
+              if v_bits s.pt + v_bits s.sdir > max_bits then state := NoModel else
+              (match ls_step_o !f !g dir dummy_oracle s with Some s' -> state := LsLbfgs (s', bx) | None -> state := NoModel)
             | LsCg s -> state := LsCg (ls_step !f !g cg_dir s)
             | LsFirst (s, k) -> state := LsFirst ((if k = 0 then ls_step !f !g sd_dir s else s), k + 1)
             | Sd s -> state := Sd (sd_step !f !g s));
@@ -181,6 +237,8 @@ let () =
             | LsCg s -> (match ls_restore cg_restore_extra s (ls_save cg_save_extra s) with
                 | Some s' -> state := LsCg s'; show !state | None -> "RESTOREFAIL")
             | LsFirst (s, k) -> show !state
+            | LsLbfgs (s, bx) -> (match ls_restore (lb_restore_extra s.extra.lb_thres) s (ls_save lb_save_extra s) with
+                | Some s' -> state := LsLbfgs (s', bx); show !state | None -> "RESTOREFAIL")
             | LsBfgs s -> (match ls_restore bfgs_restore_extra s (ls_save bfgs_save_extra s) with
                 | Some s' -> state := LsBfgs s'; show !state | None -> "RESTOREFAIL")
             | Sd s -> (match sd_restore_full s (sd_save_full s) with
